@@ -24,7 +24,7 @@ REQUIRED = ["batch_entries_compared", "batches/cache_on", "batches/cache_off", "
             "validate_smiles_compared", "validate_records_where_tautomer_flag_matters", "validate_records_where_aromaticity_flag_matters", "balance_compared", "cluster_batches_compared", "syncrn_compared",
             "batches/adversarial_id", "nonempty_entry_results", "batches/explicit_mode", "batches/dedupe_off", "batches/repeated_rule_objects",
             "cluster_batches_with_attribute", "cluster_batches_with_partial_attribute",
-            "cluster_batches_non_default_config", "cluster_batches_numeric_attribute"]
+            "cluster_batches_non_default_config", "cluster_batches_numeric_attribute", "syncrn_rule_objects_compared"]
 ASSUMPTIONS = [
     "reference for one entry: SynReactor on smiles_to_graph(entry) for each rule graph in order, flattened, order-preserving de-duplication",
     "the cache-coherence monitor only sees calls made in this process (entry_n_jobs=1); worker processes are covered by the output differential",
@@ -366,6 +366,32 @@ def check_syncrn(ctx):
                 ctx.violation("syncrn-depends-on-workers", {"seeds": seeds, "rules": rules, "max_workers": mw},
                               f"parallel network expansion differs from serial: {len(v1[0])} vs {len(v0[0])} species, {len(v1[1])} vs {len(v0[1])} events")
         ctx.count("syncrn_species", len(v0[0]))
+    # rules handed over as SynRule objects (they travel to the worker processes by pickling)
+    from synkit.Rule.syn_rule import SynRule
+    rules_s = ["[C:1]([H:3])[O:2][H:4]>>[C:1]=[O:2].[H:3][H:4]", "[C:1]=[O:2].[H:3][H:4]>>[C:1]([H:3])[O:2][H:4]"]
+    seeds = ["CCO", "OCCO", "CC(O)C"]
+    def build(parallel, mw):
+        objs = [SynRule.from_smart(r, name=f"r{i}") for i, r in enumerate(rules_s)]
+        return graph_view(SynCRN(rules=objs, repeats=2, explicit_h=False, max_components=2).build(seeds, parallel=parallel, max_workers=mw))
+    try:
+        ref = build(False, None)
+    except Exception as e:
+        ref = None
+        ctx.count("syncrn_synrule_serial_raised/" + type(e).__name__)
+    if ref is not None:
+        for mw in ((2,) if ctx.quick else (2, 4, 8)):
+            ctx.count("syncrn_rule_objects_compared")
+            try:
+                got = build(True, mw)
+            except BaseException as e:
+                if isinstance(e, (KeyboardInterrupt, SystemExit)):
+                    raise
+                ctx.violation("syncrn-depends-on-workers", {"rules": "SynRule objects", "max_workers": mw},
+                              f"parallel network expansion with SynRule rule objects raises {type(e).__name__}: {str(e)[:120]}; the serial expansion returns {len(ref[0])} species")
+                continue
+            if got != ref:
+                ctx.violation("syncrn-depends-on-workers", {"rules": "SynRule objects", "max_workers": mw},
+                              f"parallel expansion with SynRule objects differs from serial: {len(got[0])} vs {len(ref[0])} species")
 
 
 def run(ctx):
